@@ -48,7 +48,7 @@ Last == 29
 Base == ndJsonDeserialize("baselines.ndjson")    \* Base[v+1] = [v, cells]
 
 \* ------------------------------------------------------------------- keys
-K(s, n) == IF s = "" THEN n ELSE s \o "." \o n
+K0(s, n) == IF s = "" THEN n ELSE s \o "." \o n
 
 \* Keys a step mentions (section |-> names).  Everything else that occurs in
 \* a golden file is a key no step concerns.
@@ -93,9 +93,13 @@ SecKey(f) == IF f = "top" THEN "" ELSE IF f = "dhcpv4" THEN "dhcp.dhcpv4" ELSE f
 StepPairs == UNION {{<<SecKey(f), n>> : n \in StepNames[f]} : f \in DOMAIN StepNames}
 BasePairs == UNION {{<<Base[i].cells[j].p, Base[i].cells[j].n>> : j \in DOMAIN Base[i].cells} : i \in DOMAIN Base}
 AllPairs  == StepPairs \cup BasePairs
-Keys      == {K(p[1], p[2]) : p \in AllPairs}
+Keys      == {K0(p[1], p[2]) : p \in AllPairs}
 Secs      == {p[1] : p \in AllPairs} \ {""}
-ChildMap  == [s \in Secs |-> {K(p[1], p[2]) : p \in {q \in AllPairs : q[1] = s}}]
+\* String concatenation interns the result under a global lock in TLC: the
+\* key of (section, name) is looked up in a table built once.
+KTab      == [s \in Secs |-> [n \in {p[2] : p \in {q \in AllPairs : q[1] = s}} |-> K0(s, n)]]
+K(s, n)   == IF s = "" THEN n ELSE KTab[s][n]
+ChildMap  == [s \in Secs |-> {K0(p[1], p[2]) : p \in {q \in AllPairs : q[1] = s}}]
 Kids(k)   == IF k \in Secs THEN ChildMap[k] ELSE {}
 \* Descendants (sections nest at most two deep).
 DescMap   == [k \in Keys |-> Kids(k) \cup UNION {Kids(c) : c \in Kids(k)}]
@@ -487,12 +491,15 @@ StampErr(d) == d["schema_version"].t \notin {"absent", "int"} \/ VerOf(d) = -1
 \*   [err: an error with the bytes unchanged is admissible,
 \*    same: "not upgraded, no error" is admissible,
 \*    oks: the admissible upgraded documents (as serialised)].
+\* (TLC re-evaluates LET definitions and operator arguments at every use;
+\* a variable bound over a singleton set holds a value.  Hence the
+\* "\in {e}" idiom wherever an expensive value is used more than once.)
 Migrate(d, target) ==
-    LET s == VerOf(d)
-        O == IF s >= 0 /\ s < target THEN Run({Ok(d)}, s, target) ELSE {}
-    IN [err |-> StampErr(d) \/ s > target \/ HasErr(O),
-        same |-> s = target,
-        oks |-> {Ser(x) : x \in OkDocs(O)}]
+    LET s == VerOf(d) IN
+    CHOOSE r \in {[err |-> StampErr(d) \/ s > target \/ HasErr(O),
+                   same |-> s = target,
+                   oks |-> {Ser(x) : x \in OkDocs(O)}]
+                  : O \in {IF s >= 0 /\ s < target THEN Run({Ok(d)}, s, target) ELSE {}}} : TRUE
 
 \* ------------------------------------------------------------- deviations
 SectionKeys == {"coredns", "dns", "dhcp", "dhcp.dhcpv4", "clients", "querylog", "statistics", "http", "log",
@@ -533,13 +540,15 @@ DevCell(c, kind) ==
       [] kind = "zero" -> C("int", "lit:0")
       [] kind = "seven" -> C("int", "lit:7")
       [] kind = "flip" -> IF c.v = "lit:true" THEN False ELSE True
+      [] kind = "true" -> True
+      [] kind = "false" -> False
       [] kind = "future" -> C("int", "lit:30")
       [] kind = "neg" -> C("int", "lit:-1")
 
 \* Everything that lives inside the value at k.
 Inside(v, k) ==
     D(k) \cup (IF k = "coredns" THEN D("dns") ELSE {})
-         \cup (IF k \in {"clients", "clients.persistent"} THEN ClSub \cup D("clients") ELSE {})
+         \cup (IF k \in {"clients", "clients.persistent"} THEN ClSub ELSE {})
          \cup (IF k = "filters" THEN {"fl0", "fl0.url"} ELSE {})
 
 ApplyDev(d, v, dev) ==
@@ -567,29 +576,28 @@ Splits(s) == IF s < 0 THEN {} ELSE (s + 1)..(Last - 1)
 (* into partial runs ends in the same set of documents as the single run.  *)
 (***************************************************************************)
 SerOks(O) == {Ser(x) : x \in OkDocs(O)}
+StepBoth(m, i) == \* step i+1 on m and on what YAML keeps of m
+    CHOOSE p \in {[a |-> a, b |-> IF sm = m THEN a ELSE Step(i + 1, sm)] : a \in {Step(i + 1, m)}, sm \in {Ser(m)}} : TRUE
 RECURSIVE Commutes(_, _)
 Commutes(X, i) ==
     IF i >= Last \/ X = {} THEN TRUE
-    ELSE LET P == {[a |-> Step(i + 1, m), b |-> IF Ser(m) = m THEN {} ELSE Step(i + 1, Ser(m)), same |-> Ser(m) = m]
-                     : m \in X}
-         IN /\ \A p \in P : p.same \/ (SerOks(p.a) = SerOks(p.b) /\ HasErr(p.a) = HasErr(p.b))
-            /\ Commutes(UNION {OkDocs(p.a) \cup OkDocs(p.b) : p \in P}, i + 1)
+    ELSE \A P \in {{StepBoth(m, i) : m \in X}} :
+           /\ \A p \in P : SerOks(p.a) = SerOks(p.b) /\ HasErr(p.a) = HasErr(p.b)
+           /\ \A Y \in {UNION {OkDocs(p.a) \cup OkDocs(p.b) : p \in P}} : Commutes(Y, i + 1)
 
 Diff(f, b) == [k \in {x \in Keys : f[x] # b[x]} \cup {"schema_version"} |-> f[k]]
 NonAbsent(f) == [k \in {x \in Keys : f[x].t # "absent"} |-> f[k]]
 
+Analyse3(devs, d0, sd0, s, one) ==
+    [one |-> one, start |-> s,
+     stamps |-> \A f \in one.oks : f["schema_version"] = C("int", VerLit(Last)),
+     pres |-> \A f \in one.oks : \A k \in Keys \ ConcFrom[IF s < 0 THEN Last ELSE s] : f[k] = sd0[k],
+     pi |-> s < 0 \/ Commutes({d0}, s),
+     idem |-> \A f \in one.oks : \A m \in {Migrate(f, Last)} : m.same /\ ~m.err /\ m.oks = {},
+     valid |-> devs # <<>> \/ (s = Last /\ one.same) \/ (~one.err /\ Cardinality(one.oks) = 1)]
 Analyse(v, devs) ==
-    LET d0 == ApplyDevs(BaseDocs[v], v, devs)
-        s == VerOf(d0)
-        one == Migrate(d0, Last)
-        keep == Keys \ ConcFrom[IF s < 0 THEN Last ELSE s]
-        sd0 == Ser(d0)
-    IN [one |-> one, start |-> s,
-        stamps |-> \A f \in one.oks : f["schema_version"] = C("int", VerLit(Last)),
-        pres |-> \A f \in one.oks : \A k \in keep : f[k] = sd0[k],
-        pi |-> s < 0 \/ Commutes({d0}, s),
-        idem |-> \A f \in one.oks : LET m == Migrate(f, Last) IN m.same /\ ~m.err /\ m.oks = {},
-        valid |-> devs # <<>> \/ (s = Last /\ one.same) \/ (~one.err /\ Cardinality(one.oks) = 1)]
+    CHOOSE r \in UNION {{Analyse3(devs, d0, sd0, VerOf(d0), one) : sd0 \in {Ser(d0)}, one \in {Migrate(d0, Last)}}
+                          : d0 \in {ApplyDevs(BaseDocs[v], v, devs)}} : TRUE
 
 Emit(kind, v, devs, r, basef) ==
     PrintT(<<"@@V", ToJson([kind |-> kind, v |-> v, devs |-> devs, err |-> r.one.err, start |-> r.start,
@@ -601,7 +609,7 @@ BaseFinals == [v \in 0..Last |-> IF v = Last THEN Ser(BaseDocs[v])
                                    ELSE LET o == Migrate(BaseDocs[v], Last).oks IN CHOOSE f \in o : TRUE]
 
 Finish(kind, v, devs) ==
-    LET r == Analyse(v, devs) IN
+    \E r \in {Analyse(v, devs)} :
     /\ vec' = [v |-> v, devs |-> devs, stamps |-> r.stamps, pres |-> r.pres, pi |-> r.pi, idem |-> r.idem,
                valid |-> r.valid, nout |-> Cardinality(r.one.oks), err |-> r.one.err, same |-> r.one.same]
     /\ st' = "done"
